@@ -1,8 +1,9 @@
 (* Region/PropsRead.v — property C09, less-used API variants. Replica reads: GetTiKVRPCContext with ReplicaReadFollower / Mixed / PreferLeader and
    the option leaderOnly (model and proofs in ReadCtx.v); GroupKeysByRegion with the split-key filter (GroupFilter.v).
    Theorems only. *)
-From Verif Require Import Base.Lex Region.Model Region.Ord Region.Converge Region.ProofsConvB Region.ProofsReach Region.ReadCtx Region.ProofsContains Region.GroupFilter.
+From Verif Require Import Base.Lex Region.Model Region.Ord Region.Converge Region.ProofsConvB Region.ProofsReach Region.ReadCtx Region.ProofsContains Region.GroupFilter Region.ProofsConvC Region.StoreResolve.
 From Coq Require Import Sorting.Sorted.
+From Verif Require Region.InvCheck.
 Open Scope N_scope.
 
 (* a returned context names the cached entry of the version asked for and one of ITS peers; nobody failed on that peer's
@@ -115,4 +116,50 @@ Example C09_group_filter_unsorted_counterexample :
   fst (fst (group_assign_f gf_pd 0 eq_start 3 0 gf_c [[120]; [109]] None [])) = Ok [([120], gf_r2); ([109], gf_r2)] /\
   fst (fst (group_assign_f gf_pd 0 eq_start 3 0 gf_c [[109]; [109]] None [])) = Ok [([109], gf_r2)] /\
   r_start gf_r2 = [109].
+Proof. vm_compute. repeat split. Qed.
+
+Definition cv_R1r := mkDesc 1 [] [98] 2 1 [(1, 1); (2, 2)] (2, 2) None.
+Definition cv_R2r := mkDesc 2 [98] [] 2 1 [(3, 1); (4, 2)] (3, 1) None.
+Definition cv_truth_r := [cv_R1r; cv_R2r].
+Definition cv_pd_r (t : nat) (q : pd_req) : pd_ans :=
+  match q with ReqGet k => PdOne (find (fun T => tcontains T k) cv_truth_r) | _ => PdOne None end.
+Definition cv_cache_r := mkCache [mkRegion 1 [] [] 1 1 [(1, 1); (2, 2)] 0 false 0 false false false [0; 0] None] [((1, 1, 1), [])] [(1, (1, 1))] [] [].
+(* ---- PD faults on the store path (GetStore failing transiently during initResolve / reResolve / the store check) ---- *)
+(* a transient failure leaves the store, and with it the cache, exactly as it was; initResolve asks again and the failed
+   attempts do not influence the outcome; a store becomes a tombstone only when PD reported it removed *)
+Theorem C09_store_fault_transient : forall c st n o rest l st',
+  store_check c st RoTransient = c /\
+  init_resolve (repeat RoTransient n ++ o :: rest) = init_resolve (o :: rest) /\
+  (In st' (c_tomb (store_checks c l)) -> In st' (c_tomb c) \/ In (st', RoRemoved) l).
+Proof.
+  intros c st n o rest l st'. split; [reflexivity|]. split; [apply init_resolve_transient|apply store_checks_tomb].
+Qed.
+Print Assumptions C09_store_fault_transient.
+(* convergence over store checks with arbitrary outcomes: from any reachable state, after ANY sequence of store checks — each
+   confirming the store, failing transiently, or finding the store removed (the latter only for stores without a current
+   peer) — 4 rounds suffice once PD reports the current regions *)
+Theorem C09_converges_store_faults : forall truth H cur_of pd budget fuel k T c l,
+  truth_wf truth -> hist_ok truth H -> reach truth H c ->
+  (forall st R p, In (st, RoRemoved) l -> In R truth -> In p (d_peers R) -> snd p <> st) ->
+  (forall R, In R truth -> In R (cur_of R) /\ forall d, In d (cur_of R) -> In d truth) ->
+  (forall t k T, In T truth -> tcontains T k = true -> pd t (ReqGet k) = PdOne (Some T)) ->
+  (0 < budget)%nat -> (0 < fuel)%nat ->
+  In T truth -> tcontains T k = true ->
+  rounds truth cur_of pd budget fuel 4 (store_checks c l) k = true.
+Proof.
+  intros truth H cur_of pd budget fuel k T c l H1 Hh Hr Hrm H2 H3 H4 H5 H6 H7.
+  pose proof (store_checks_reach truth H l c Hrm Hr) as Hr'.
+  exact (converges truth H1 cur_of H2 pd H3 budget fuel H4 H5 k T H6 H7 _ (proj1 (reach_rinv truth H Hh _ Hr'))).
+Qed.
+Print Assumptions C09_converges_store_faults.
+(* non-vacuity: store 1 leads region 2 of the example; two transient failures and a confirmation leave the cache untouched
+   and the request converges; had the failures been taken for "removed", the leader's store would be buried:
+   the cache then violates the invariant (a current peer on a tombstone store) and the request never gets through *)
+Example C09_store_faults_nonvacuous :
+  store_checks cv_cache_r [(1, RoTransient); (1, RoTransient); (1, RoOk)] = cv_cache_r /\
+  init_resolve [RoTransient; RoTransient; RoOk] = Some true /\ init_resolve [RoTransient; RoRemoved] = Some false /\
+  InvCheck.cinvb cv_truth_r (store_checks cv_cache_r [(1, RoTransient)]) = true /\
+  InvCheck.cinvb cv_truth_r (store_checks cv_cache_r [(1, RoRemoved)]) = false /\
+  rounds cv_truth_r (fun _ => cv_truth_r) cv_pd_r 3 3 4 (store_checks cv_cache_r [(1, RoTransient)]) [99] = true /\
+  rounds cv_truth_r (fun _ => cv_truth_r) cv_pd_r 3 3 12 (store_checks cv_cache_r [(1, RoRemoved)]) [99] = false.
 Proof. vm_compute. repeat split. Qed.
